@@ -5,6 +5,7 @@
 package cmd
 
 import (
+	"bytes"
 	"regexp"
 
 	"github.com/coreruleset/crs-toolchain/v2/regex"
@@ -281,3 +282,103 @@ func SpecHasHeader(lines []string) bool {
 //@   results r
 //@   requires implies(len(lines) >= 3, SpecNoNL(lines[0]) && SpecNoNL(lines[1]) && SpecNoNL(lines[2]))
 //@   ensures header-detection: r == SpecHasHeader(lines)
+
+// ---- update / compare: which line of the rules file is addressed ---------------------
+
+func reMatchDyn(pattern string, s string) bool { return regexp.MustCompile(pattern).MatchString(s) }
+
+func OpaqueSplitNL(s []byte) [][]byte { return bytes.Split(s, []byte("\n")) }
+func OpaqueJoinNL(l [][]byte) []byte  { return bytes.Join(l, []byte("\n")) }
+
+//@ extern bytes.Split
+//@   params s sep
+//@   results r
+//@   ensures implies(sep == "\n", r == OpaqueSplitNL(s))
+
+//@ extern bytes.Join
+//@   params l sep
+//@   results r
+//@   ensures implies(sep == "\n", r == OpaqueJoinNL(l))
+
+// SpecIsIdLine: the line carries the id action of the rule ("id:<rule id>").
+func SpecIsIdLine(ruleId string, line []byte) bool {
+	return reMatchDyn("id:"+ruleId, string(line))
+}
+
+// SpecFirstId: index of the first id line at or after i, len(lines) if there is none.
+func SpecFirstId(ruleId string, lines [][]byte, i int) int {
+	if i < 0 || i >= len(lines) {
+		return len(lines)
+	}
+	if SpecIsIdLine(ruleId, lines[i]) {
+		return i
+	}
+	return SpecFirstId(ruleId, lines, i+1)
+}
+
+// SpecCountSec: number of SecRule lines among lines[a..b).
+func SpecCountSec(lines [][]byte, a, b int) int {
+	if b <= a || b > len(lines) {
+		return 0
+	}
+	if reMatch(regex.SecRuleRegex, string(lines[b-1])) {
+		return SpecCountSec(lines, a, b-1) + 1
+	}
+	return SpecCountSec(lines, a, b-1)
+}
+
+// SpecIsTarget: t is the line update/compare address for (ruleId, chainOffset): the line
+// before the id line for offset 0, otherwise the chainOffset-th SecRule line after it.
+func SpecIsTarget(ruleId string, chainOffset int, lines [][]byte, t int) bool {
+	if SpecFirstId(ruleId, lines, 0) >= len(lines) {
+		return false
+	}
+	if chainOffset == 0 {
+		return t == SpecFirstId(ruleId, lines, 0)-1
+	}
+	return t > SpecFirstId(ruleId, lines, 0) && t < len(lines) && reMatch(regex.SecRuleRegex, string(lines[t])) && SpecCountSec(lines, SpecFirstId(ruleId, lines, 0)+1, t+1) == chainOffset
+}
+
+// SpecSetLine: lines with element t replaced by v.
+func SpecSetLine(lines [][]byte, t int, v []byte) [][]byte {
+	out := append([][]byte{}, lines...)
+	out[t] = v
+	return out
+}
+
+//@ lemma LemmaFirstId
+//@   tags C11 C12
+//@   requires 0 <= i
+//@   decreases len(lines) - i
+//@   ensures i <= SpecFirstId(ruleId, lines, i) || SpecFirstId(ruleId, lines, i) == len(lines)
+//@   ensures SpecFirstId(ruleId, lines, i) <= len(lines)
+//@   ensures implies(SpecFirstId(ruleId, lines, i) < len(lines), SpecIsIdLine(ruleId, lines[SpecFirstId(ruleId, lines, i)]))
+//@   ensures forall(i, SpecFirstId(ruleId, lines, i), func(j int) bool { return !SpecIsIdLine(ruleId, lines[j]) })
+func LemmaFirstId(ruleId string, lines [][]byte, i int) {
+	if i >= len(lines) {
+		return
+	}
+	if SpecIsIdLine(ruleId, lines[i]) {
+		return
+	}
+	LemmaFirstId(ruleId, lines, i+1)
+}
+
+// updateRegex: the rules file is rewritten exactly once, with the addressed line's
+// operand (group 2 of RuleRxRegex, whose three groups span the line) replaced by the
+// new regex and every other line - hence every other byte - unchanged. The property's
+// own precondition (CRS layout: the id action is never on the first line of the file)
+// is the `requires`.
+//@ contract updateRegex
+//@   tags C11 C12
+//@   opt termination C11
+//@   requires crs-layout: !SpecIsIdLine(ruleId, OpaqueSplitNL(fileContent(filePath))[0])
+//@   modifies fsWrites
+//@   use entry LemmaFirstId(ruleId, OpaqueSplitNL(fileContent(filePath)), 0)
+//@   ensures[C11,C15,C16] one-write-own-path: fsWrites() == old(fsWrites())+1 && lastWritePath() == filePath
+//@   ensures[C11,C12] addressed-line: SpecIsTarget(ruleId, chainOffset, OpaqueSplitNL(old(fileContent(filePath))), index)
+//@   ensures[C11,C12] line-has-rx-operand: reMatch(regex.RuleRxRegex, string(OpaqueSplitNL(old(fileContent(filePath)))[index]))
+//@   ensures[C11,C12] only-operand-replaced: lastWriteData() == OpaqueJoinNL(SpecSetLine(OpaqueSplitNL(old(fileContent(filePath))), index, reGroup(regex.RuleRxRegex, string(OpaqueSplitNL(old(fileContent(filePath)))[index]), 1)+newRegex+reGroup(regex.RuleRxRegex, string(OpaqueSplitNL(old(fileContent(filePath)))[index]), 3)))
+//@   loop 0 invariant 0 <= rangeIndex0 && rangeIndex0 <= len(lines) && implies(rangeIndex0 > 0, index == rangeIndex0-1) && implies(rangeIndex0 == 0, index == 0)
+//@   loop 0 invariant implies(!foundRule, SpecFirstId(ruleId, lines, 0) >= rangeIndex0 && chainCount == 0)
+//@   loop 0 invariant implies(foundRule, SpecFirstId(ruleId, lines, 0) < rangeIndex0 && chainOffset != 0 && chainCount < chainOffset && chainCount == SpecCountSec(lines, SpecFirstId(ruleId, lines, 0)+1, rangeIndex0))
